@@ -252,7 +252,12 @@ def run_c15(tier):
             if alt is NotImplemented:
                 continue
             acc.add("evaluations")
-            y = dataclasses.replace(x, **{f.name: alt})
+            try:
+                y = dataclasses.replace(x, **{f.name: alt})
+            except Exception as e:  # noqa: BLE001
+                acc.report(violation("C15", "equality", f"C15/equality/replace-of-one-field-raised/{exc_name(e)}", path,
+                                     {"class": path, "field": f.name}, "dataclasses.replace works for every field", repr(e)[:200], (n, f.name)))
+                continue
             if y == x or not (y != x):
                 acc.report(violation("C15", "equality", "C15/equality/instances-differing-in-one-field-compare-equal", path,
                                      {"class": path, "field": f.name}, "unequal", f"equal although .{f.name} differs", (n, f.name)))
